@@ -39,6 +39,8 @@ def tasks(tier):
     for cfg in ("NeoHooke(bulk)", "Volumetric", "NeoHooke(mu,bulk)"):
         ts.append(("re-assembly %s" % cfg, "run_included", dict(modname="c01", fname="run_reassembly", kwargs=dict(cfg=cfg), oid="C14.O1",
                                                               why="force and moment balance are shown for the stress of the current state; a body that carries stress over from an earlier evaluation loses them")))
+    ts.append(("multi-point constraints and contact", "run_included", dict(modname="c01", fname="run_multipoint", kwargs={}, oid="C14.O7",
+                                                                          why="self-equilibrated constraint forces in every configuration (skip tuples, centre point among the points, contact with zero initial gap)")))
     return ts
 
 
